@@ -260,8 +260,34 @@ class CsrEnv:
         return r
 
 
+_PATH_SOLVER = {"pc": None, "solver": None}
+
+
 def _valid(ob, pc, goal, label):
-    """pc => goal valid?"""
+    """pc => goal valid? (one incremental solver per path condition: push / assert the negated goal / check / pop)"""
+    cache = _PATH_SOLVER
+    if cache["pc"] is not pc or cache["n"] != len(pc):
+        sv = z3.Solver()
+        sv.set("timeout", 30000)
+        sv.add(*pc)
+        cache.update(pc=pc, n=len(pc), solver=sv)
+    sv = cache["solver"]
+    t0 = time.time()
+    sv.push()
+    sv.add(z3.Not(goal))
+    r = sv.check()
+    mdl = sv.model() if r == z3.sat else None
+    if len(ob.smt2) < 40 and r == z3.unsat:
+        ob.smt2.append((label, sv.to_smt2()))
+    sv.pop()
+    ob.solver_s += time.time() - t0
+    ob.queries += 1
+    if r == z3.unknown:
+        raise Unsupported(f"z3 unknown ({label})")
+    return r == z3.unsat, mdl
+
+
+def _valid_fresh(ob, pc, goal, label):
     s = z3.Solver()
     s.set("timeout", 30000)
     s.add(*pc)
